@@ -172,6 +172,10 @@ class Grower:
 
     def add_input(self, shape):
         t = self.g.tensor(self.name("in"), shape)
+        if getattr(self, "dynamic_batch", 0.0) and len(shape) >= 2 and shape[0] == 1 and self.rng.random() < self.dynamic_batch:
+            # a dynamic batch dimension: static shape 1, shape signature -1 (what converters emit for `None` batch sizes)
+            self.g.sg.tensors[t].shapeSignature = [-1] + [int(x) for x in shape[1:]]
+            self.tags.add("dynamic_batch_input")
         self.inputs.append(t)
         self.acts.append((t, tuple(shape)))
         return t
@@ -201,6 +205,12 @@ class Grower:
         self.acts.append((t, tuple(shape)))
         self.produced.append(t)
 
+    def _fuse(self, opts):
+        """a fused activation (what converters emit for relu(op(x))): part of the operator's options, never touched by quantization"""
+        if getattr(self, "fused_act", 0.0) and self.rng.random() < self.fused_act:
+            opts.fusedActivationFunction = self.rng.choice([s.ActivationFunctionType.RELU, s.ActivationFunctionType.RELU6])
+            self.tags.add("fused_activation")
+
     # each template returns True if it emitted an op
     def emit(self, kind, share=0.0):
         g, rng = self.g, self.rng
@@ -214,6 +224,7 @@ class Grower:
             bias = self.const([o], share=share, base="b") if rng.random() < 0.7 else -1
             y = self.new_act([b, o])
             opts = s.FullyConnectedOptionsT()
+            self._fuse(opts)
             g.op(BO.FULLY_CONNECTED, [x, w, bias], [y], OPT.FullyConnectedOptions, opts)
             self.out(y, [b, o])
         elif kind in ("CONV_2D", "DEPTHWISE_CONV_2D", "CONV_2D_TRANSPOSE", "AVERAGE_POOL_2D"):
@@ -228,6 +239,7 @@ class Grower:
                 y = self.new_act([n, h, w_, o])
                 opts = s.Conv2DOptionsT()
                 opts.padding, opts.strideH, opts.strideW, opts.dilationHFactor, opts.dilationWFactor = s.Padding.SAME, 1, 1, 1, 1
+                self._fuse(opts)
                 g.op(BO.CONV_2D, [x, w, bias], [y], OPT.Conv2DOptions, opts)
                 self.out(y, [n, h, w_, o])
             elif kind == "DEPTHWISE_CONV_2D":
@@ -258,6 +270,7 @@ class Grower:
                 y = self.new_act([n, h, w_, c])
                 opts = s.Pool2DOptionsT()
                 opts.padding, opts.strideH, opts.strideW, opts.filterHeight, opts.filterWidth = s.Padding.SAME, 1, 1, rng.choice([1, 2]), rng.choice([1, 2])
+                self._fuse(opts)
                 g.op(BO.AVERAGE_POOL_2D, [x], [y], OPT.Pool2DOptions, opts)
                 self.out(y, [n, h, w_, c])
         elif kind == "RESHAPE":
@@ -513,10 +526,12 @@ class Grower:
 
 
 def grow_subgraph(g: G, rng, n_ops, prefix="", sig=None, kinds=None, share=0.0, shared_consts=None, p_unsupported=0.25,
-                  name_hazard=0.0, extra_outputs=0.3, allow_dead=0.1, const_output=0.0, const_kinds=None, alias_sig=None, bool_mask=0.06, sig_names=None, p_stateful=0.0, dup_output=0.0):
+                  name_hazard=0.0, extra_outputs=0.3, allow_dead=0.1, const_output=0.0, const_kinds=None, alias_sig=None, bool_mask=0.06, sig_names=None, p_stateful=0.0, dup_output=0.0, dynamic_batch=0.0, fused_act=0.0):
     g.subgraph(name=(prefix or "main").encode())
     gr = Grower(g, rng, prefix, shared_consts)
     gr.const_kinds = const_kinds
+    gr.dynamic_batch = dynamic_batch
+    gr.fused_act = fused_act
     # inputs
     r = rng.random()
     if r < 0.55:
